@@ -89,6 +89,10 @@ SUMMARY = {
 'c08rb':'roll-buffer capacity clamped to 1 MiB without keeping it above the longest pattern: with a pattern >= 1 MiB the first refill offers an empty slice, Ok(0) is taken for EOF (rediscovery of c07t)',
 'c17rb':'noncontiguous NFA caches a match-list cursor in three relaxed atomics; only index-0 calls record the owning state but every call overwrites the position: interleaved overlapping searches report a wrong pattern',
 'c18rb':'on a read error the replace driver first writes the held-back unsearched tail verbatim (rediscovery of c18d)',
+'c07rc':'rewrite of StreamChunkIter::next / Buffer::roll that keeps everything since the automaton last sat in its start state: failure transitions can keep it out of the start state for longer than the buffer ("aab" on a run of a), then fill offers an empty slice and Ok(0) is taken for EOF',
+'c08rc':'rewrite with a lazy roll (only when free space < longest pattern); roll() sets buffer_reported_pos = 0 instead of rebasing it: a replaced match inside the retained suffix is written again as plain text',
+'c17rc':'the three rare-byte prefilters merged into one routine with an atomic note of the last scan (start, first rare byte position), validated only by "that byte is still a rare byte": a note from another haystack skips an earlier rare byte',
+'c18rc':'rewrite of Buffer::fill as one read plus a top-up loop whose `_ => break` arm also catches Err: a one-shot read error after a short first read is dropped (rediscovery of c18a in a rewrite)',
 'c18a':'fill returns Ok(true) instead of the error when it had already buffered bytes in the same call: one-shot read errors during the initial fill vanish',
 'c18b':'closure errors of kind Interrupted are retried by calling the closure again: error swallowed, partial output duplicated',
 'c18c':'fill commits its new end only after the loop: an error on a later read of one fill discards bytes accepted earlier; polling on shifts all later offsets',
